@@ -45,7 +45,8 @@ def meta(tier, seed):
                              "thorough": ["1d n<=4", "2d9 n<=3", "2d6 n<=3 (all arm assignments)", "2dm n<=3",
                                           "policies beyond eg0/ucb/lucb: n<=2 on 1d and 2d6"]}[tier],
                    "metrics": METRICS, "radii": "every distance value occurring in the grid (euclidean: math.sqrt of the squared distance), at most 6", "k": "1..n",
-                   "policies": LP_QUICK if tier == "quick" else LP_THOROUGH, "rewards": "row i rewarded 2^i (binary i%2 for Thompson)"},
+                   "policies": LP_QUICK if tier == "quick" else LP_THOROUGH, "rewards": "row i rewarded 2^i (binary i%2 for Thompson)",
+                   "earlier_life": "a third of the bandits first live another life (fit on other rows, a query) before the history"},
         "assumptions": ["metrics whose distances are irrational on the grid are not checked at the boundary",
                         "the learning policy's own arithmetic is C01/C02's subject; here it is the reference"],
     }
@@ -203,9 +204,15 @@ def make_cfg(ln, kind, metric, param, p_vec, seed):
     return {"arms": [1, 2], "lp": A.LPS[ln], "np": np_, "seed": seed, "n_jobs": 1, "backend": None}
 
 
-def judge(cfg, ln, kind, metric, param, thr, p_vec, hist_rows, comp, queries, one_by_one, acc=None):
+def judge(cfg, ln, kind, metric, param, thr, p_vec, hist_rows, comp, queries, one_by_one, acc=None, prefit=False):
     """Full evaluation of one bandit: batch query (+ single-row queries).  -> list of messages."""
     history = []
+    if prefit:
+        # an earlier life of the same bandit (other rows, one more row than needed, a query): fit must forget it
+        d = len(hist_rows[0][1])
+        pre = [[9] * d, [8] * d, [7] * d][:max(2, cfg["np"][1].get("k", 1))]
+        history.append(["fit", [1, 2, 1][:len(pre)], [5.0, 6.0, 7.0][:len(pre)] if ln not in ("ts", "tsb") else [1, 0, 1][:len(pre)], pre])
+        history.append(["predict", [list(queries[0])]])
     for i, (a, b) in enumerate(comp):
         rows = hist_rows[a:b]
         history.append(["fit" if i == 0 else "partial_fit", [r[0] for r in rows], [r[2] for r in rows],
@@ -279,13 +286,15 @@ def _run_shard(shard):
                     p_vec = NO_NHOOD[(ci + pi + sum(pts[0])) % 4] if kind == "rad" else None
                     cfg = make_cfg(ln, kind, metric, param, p_vec, shard["seed"])
                     one = ci == 0 and pi == 0  # single-row queries once per stored set
-                    msgs, history = judge(cfg, ln, kind, metric, param, thr, p_vec, hist_rows, comp, grid, one, acc)
+                    prefit = (ci + pi + len(pts)) % 3 == 0
+                    msgs, history = judge(cfg, ln, kind, metric, param, thr, p_vec, hist_rows, comp, grid, one, acc, prefit)
                     acc.traces += 1
                     acc.state((ln, kind, metric, str(param), str(hist_rows), ci))
                     if msgs:
                         acc.violation("%s/%s %s %s=%s comp=%d" % (ln, kind, metric, "r" if kind == "rad" else "k", param, len(comp)),
                                       {"cfg": cfg, "ln": ln, "kind": kind, "metric": metric, "param": param, "thr": thr,
-                                       "p_vec": p_vec, "rows": hist_rows, "comp": comp, "queries": grid}, msgs[0])
+                                       "p_vec": p_vec, "rows": hist_rows, "comp": comp, "queries": grid, "prefit": prefit},
+                                      msgs[0])
                     elif n >= 2 and ci == 1 and len(acc.samples) < 2:
                         acc.sample({"cfg": cfg, "history": history, "queries": grid})
     return acc.result()
@@ -295,5 +304,5 @@ def replay(w):
     rows = [(r[0], r[1], r[2]) for r in w["rows"]]
     comp = [tuple(c) for c in w["comp"]]
     msgs, _ = judge(w["cfg"], w["ln"], w["kind"], w["metric"], w["param"], w["thr"], w["p_vec"], rows, comp,
-                    w["queries"], True)
+                    w["queries"], True, prefit=w.get("prefit", False))
     return msgs
